@@ -25,7 +25,7 @@ RULE = (
     "options); non-trivial = the search returned >=1 index"
 )
 ASSUMPTIONS = ["the independent cost model is the definition of the sliced tree's figures"]
-REQUIRED_MONITORS = ["prediction_vs_sliced_tree", "prediction_vs_model", "cached_sets_vs_model", "target_honoured", "forbidden_respected", "tree_slice_postcondition", "presliced_trees"]
+REQUIRED_MONITORS = ["prediction_vs_sliced_tree", "prediction_vs_model", "cached_sets_vs_model", "target_honoured", "forbidden_respected", "tree_slice_postcondition", "tree_reslice_postcondition", "presliced_trees"]
 SHARD_TIMEOUT = {"quick": 400, "thorough": 3600}
 MINIMIZE = ("flops", "size", "write", "combo", "limit")
 
@@ -44,6 +44,46 @@ def model_for(tree, extra):
     for ix in extra:
         ns[ix] = tree.size_dict[ix]
     return ref.Costs(tree.inputs, tree.output, tree.size_dict, ct.children_of(tree), removed=[ix for ix, _ in rem] + list(extra), nslices_of=ns)
+
+
+def ct_copy(tree):
+    from ..sanitizer import snapshot
+
+    return snapshot(tree)
+
+
+def check_reslice(rep, net, tree, o, kw, inplace):
+    """tree.slice(reslice=True) on an already sliced tree: the existing slices are removed first and
+    the search starts again.  Post-conditions on the RETURNED tree: its own figures are true (model),
+    target_size holds; target_slices is documented to be 'on top of the current number of slices';
+    the overhead is relative to the unsliced tree the search starts from."""
+    before_mult = tree.multiplicity
+    unsliced = ct_copy(tree)
+    unsliced.unslice_all_()
+    base_flops = ct.costs_of(unsliced).total_flops()
+    src = ct_copy(tree) if inplace else tree
+    try:
+        t = (src.slice_ if inplace else src.slice)(max_repeats=o["max_repeats"], reslice=True, **kw)
+    except (RuntimeError, ValueError, KeyError) as e:
+        rep.count("outcome_tree_reslice", f"refused:{type(e).__name__}")
+        return None
+    rep.mon("tree_reslice_postcondition")
+    m = ct.costs_of(t)
+    if dict(t.contract_stats()) != {"flops": m.total_flops(), "write": m.total_write(), "size": m.max_size()}:
+        return ("tree_slice", f"tree.slice(reslice=True) -> stats {dict(t.contract_stats())} != model")
+    if any(si.project is not None for si in tree.sliced_inds.values()):
+        return None  # projected indices are restored by the reslice as well: only the self-consistency above is asserted
+    if o.get("target_size") is not None and m.max_size() > o["target_size"]:
+        return ("tree_slice", f"tree.slice(reslice=True, target_size={o['target_size']}, inplace={inplace}) on a tree sliced on {list(tree.sliced_inds)} -> size {m.max_size()} (sliced {list(t.sliced_inds)})")
+    if o.get("target_slices") is not None and m.mult < o["target_slices"] * before_mult:
+        return ("tree_slice", f"tree.slice(reslice=True, target_slices={o['target_slices']}) from {before_mult} slices -> only {m.mult}")
+    if o.get("target_overhead") is not None and m.total_flops() > o["target_overhead"] * base_flops * (1 + 1e-12):
+        return ("tree_slice", f"tree.slice(reslice=True, target_overhead={o['target_overhead']}) -> overhead {m.total_flops() / base_flops} over the unsliced tree")
+    if o["allow_outer"] is False and any(ix in net.output for ix in t.sliced_inds):
+        return ("tree_slice", f"tree.slice(reslice=True, allow_outer=False) sliced output index {list(t.sliced_inds)}")
+    if not inplace and (list(tree.sliced_inds) != list(src.sliced_inds) or tree.multiplicity != before_mult):
+        return ("tree_slice", "tree.slice(reslice=True, inplace=False) modified the tree it was called on")
+    return None
 
 
 def build(case):
@@ -135,9 +175,17 @@ def execute(rep, case):
         if msg:
             return ("cached_prediction", msg), True
 
-    # tree.slice post-conditions
+    # tree.slice post-conditions (also: reslice=True, which first removes the existing slices,
+    # and the in-place variant on a copy)
+    r2 = rng_for(case["case_seed"], "slice_variant")
+    reslice = bool(tree.sliced_inds) and r2.random() < 0.5
+    inplace = r2.random() < 0.4
     try:
-        t3 = tree.slice(max_repeats=o["max_repeats"], **kw)
+        if reslice:
+            res = check_reslice(rep, net, tree, o, kw, inplace)
+            if res:
+                return res, True
+        t3 = (ct_copy(tree).slice_ if inplace else tree.slice)(max_repeats=o["max_repeats"], **kw)
     except (RuntimeError, ValueError, KeyError) as e:
         rep.count("outcome_tree_slice", f"refused:{type(e).__name__}")
         return None, bool(ix_sl)
